@@ -223,6 +223,12 @@ def run(ctx):
             stats["with_catches"] += 1
         if '"next"' in text:
             stats["with_next"] += 1
+        # (b0) the model the tree keeps (stored in the process row, used by every reload) rebuilds the same nodes: generated ids are part of it
+        rb = e.get("rebuilt")
+        if e.get("valid") and isinstance(rb, dict) and rb.get("same_ids") is False:
+            have = sorted(x["id"] for x in e["dump"].get("nodes", []))
+            ctx.violation("C20|kept-model-rebuilds-other-nodes", f"a tree rebuilt from the model the tree keeps has nodes {rb.get('ids', [])[:6]}, the tree has {have[:6]}", {"model": w})
+            continue
         # (b) validity = no duplicate id (Lean theorem build_ok_iff_nodup), same error class
         if has_empty:
             stats["generated_ids"] += 1
@@ -285,14 +291,21 @@ def run(ctx):
         g2 = FullGen(r.fork("b"), dup_p=0)
         w2 = g2.workflow("db")
         w2["on"] = [{"id": "ev0", "uses": "acts.event.manual"}]
+        # a later edition of model `da` whose `on` list has grown (new entries after, and sometimes before, the old ones)
+        import copy
+        w1b = copy.deepcopy(w1)
+        extra = [{"id": f"evx{k}", "uses": "acts.event.manual"} for k in range(r.range(1, 2))]
+        w1b["on"] = (extra[:1] if r.chance(1, 4) else []) + w1["on"] + extra[1:] + ([] if r.chance(1, 4) and len(extra) > 1 else extra[:1] if not w1b["on"] else [])
+        seen_ids = set()
+        w1b["on"] = [a for a in (w1["on"] + extra if not r.chance(1, 4) else extra + w1["on"]) if not (a["id"] in seen_ids or seen_ids.add(a["id"]))]
         ops = []
         nd = {"da": 0, "db": 0}
         for _ in range(r.range(2, 7)):
             k = r.below(10)
             if k < 5:
-                which = r.pick([0, 1])
+                which = r.pick([0, 1, 2, 2])
                 ops.append(["deploy", which, r.pick(["", "yml"])])
-                nd["da" if which == 0 else "db"] += 1
+                nd["db" if which == 1 else "da"] += 1
             elif k < 7:
                 which = r.pick(["da", "db"])
                 ops.append(["rm_model", which])
@@ -302,7 +315,7 @@ def run(ctx):
             ops.append(["model_get", "da", "json"])
             ops.append(["model_get", "db", "json"])
             ops.append(["rows", "events"])
-        scs.append({"id": f"dep-{i}", "config": {"keep": True}, "models": [w1, w2], "ops": ops})
+        scs.append({"id": f"dep-{i}", "config": {"keep": True}, "models": [w1, w2, w1b], "ops": ops})
     res = ctx.harness("run", scs, tag="d")
     for sc, r in zip(scs, res):
         ctx.cov["evaluations"] += 1
@@ -310,20 +323,20 @@ def run(ctx):
             ctx.violation("C20|engine-panic", f"engine panicked: {str(r.get('panic'))[:100]}", {"scenario": sc})
             continue
         ver = {"da": 0, "db": 0}
-        ons = {"da": [a["id"] for a in sc["models"][0].get("on", [])], "db": [a["id"] for a in sc["models"][1].get("on", [])]}
+        ons_of = [[a["id"] for a in m.get("on", [])] for m in sc["models"]]
         live_events = {"da": set(), "db": set()}
         by_op = {st["op"]: st["obs"] for st in r.get("steps", [])}
         bad = None
         for i, op in enumerate(sc["ops"]):
             obs = by_op.get(i, [])
             if op[0] == "deploy":
-                mid = "da" if op[1] == 0 else "db"
+                mid = "db" if op[1] == 1 else "da"
                 ok = any(o.get("k") == "res" and o.get("ok") for o in obs)
                 if not ok:
                     bad = ("deploy-rejected", f"deploy of a valid model failed: {obs}")
                     break
                 ver[mid] += 1
-                live_events[mid] = set(f"{mid}:{a}" for a in ons[mid])
+                live_events[mid] = set(f"{mid}:{a}" for a in ons_of[op[1]])
             elif op[0] == "rm_model":
                 ver[op[1]] = 0
                 live_events[op[1]] = set()
